@@ -538,6 +538,10 @@ package swap
 //@ requires @C15,C07,in:s recovery-respects-failonrecover: ghost.inSendEvent || !s.States[s.Current].FailOnrecover
 //@ ensures ghost.dirty
 //@ ensures @in:s ghost.ranState == s.Current
+// actions cannot reach the state machine: its current state is theirs to read through swap.FSMState only
+//@ ensures @in:s s.Current == old(s.Current)
+// only the terminal states' action reports Event_Done (per-state obligation #returns)
+//@ ensures @in:s result == Event_Done ==> s.IsFinished()
 // actions receive the services and the swap data, not the state machine: its id is out of their reach
 //@ ensures @in:s s.SwapId == old(s.SwapId) && s.SwapId.String() == old(s.SwapId.String())
 
@@ -550,7 +554,7 @@ package swap
 //@ assigns ghost.dirty
 
 //@ func (*SwapStateMachine).SendEvent
-//@ property C09 C13 C15 C01 C04 C07 C08 C12
+//@ property C09 C13 C15 C01 C04 C07 C08 C12 C10 C16
 //@ requires clean: !ghost.dirty
 //@ typeinv s != nil && s.swapServices != nil && s.Data != nil
 // the machine rests in a state whose action has completed; this driver is SendEvent
@@ -559,11 +563,20 @@ package swap
 //@ loop 0 invariant !ghost.dirty
 //@ ensures @C13,C15 persisted: (result1 == nil) ==> !ghost.dirty
 //@ ensures @C09,C10 id-stable: s.SwapId == old(s.SwapId) && s.SwapId.String() == old(s.SwapId.String())
+// "done" is reported only for a finished swap (or for a swap whose very first event could not be applied, or the bare Event_Done)
+//@ ensures @C10,C16,C07 done-means-over: result0 ==> (s.IsFinished() || event == Event_Done || ((event == Event_OnSwapOutStarted || event == Event_SwapInSender_OnSwapInRequested) && result1 != nil && eventCtx != nil))
+//@ ensures @C10,C16,C07 done-event-is-a-no-op: event == Event_Done ==> s.Current == old(s.Current)
 
 //@ func (*SwapStateMachine).Recover
-//@ property C13 C15 C07
-//@ requires s != nil && s.swapServices != nil && s.Data != nil && !ghost.dirty
+//@ property C13 C15 C07 C10 C16
+//@ requires clean: !ghost.dirty
+//@ requires no-message: ghost.msgPeer == ""
+//@ typeinv s != nil && s.swapServices != nil && s.Data != nil
 //@ typeinv ghost.ranState == s.Current && !ghost.inSendEvent
+//@ ensures @C10,C16,C07 done-means-over: result0 ==> s.IsFinished()
+//@ ensures @C09,C10 id-stable: s.SwapId == old(s.SwapId) && s.SwapId.String() == old(s.SwapId.String())
+// bookkeeping for the recovery order (lock in, then recover): see RecoverSwaps$1
+//@ ensures @trusted ghost.recovered
 //@ ensures @C13,C15 persisted: (result1 == nil) ==> !ghost.dirty
 
 // the request was validated: exactly one of asset / network is set
@@ -590,6 +603,8 @@ package swap
 //@ property C10 C09
 //@ forall k0 string
 //@ requires s != nil && fsm != nil && s.activeSwaps != nil
+//@ requires @C09,C10 keyed-by-own-id: swapId == fsm.SwapId.String()
+//@ requires @C07,C10,in:wg lock-before-recover: !ghost.recovered
 //@ loop 0 invariant @C10 checked: (visited(k0) && has(s.activeSwaps, k0)) ==> s.activeSwaps[k0].Data.GetScidInBoltFormat() != strings.ReplaceAll(channelId, ":", "x")
 //@ loop 0 invariant @C10,C09 unchanged: has(s.activeSwaps, k0) == old(has(s.activeSwaps, k0)) && s.activeSwaps[k0] == old(s.activeSwaps[k0])
 //@ ensures @C10 one-per-channel: (result == nil && old(has(s.activeSwaps, k0))) ==> old(s.activeSwaps[k0].Data.GetScidInBoltFormat()) != strings.ReplaceAll(channelId, ":", "x")
@@ -609,6 +624,7 @@ package swap
 //@ property C09 C10 C11
 //@ forall k0 string
 //@ requires s != nil && fsm != nil && s.activeSwaps != nil && s.swapServices != nil
+//@ requires @C09,C10 keyed-by-own-id: swapId == fsm.SwapId.String()
 //@ ensures @C09 known-id-refused: (uf("idStored", true, swapId) || old(has(s.activeSwaps, swapId))) ==> result != nil
 // C11: a requested swap is locked in (and then started) only after the handler's checks
 //@ requires @C11,in:message,in:peerId premium-within-limit: premiumOf(peerId, ite(message.Network == "", premium.LBTC, premium.BTC), ite(fsm.Type == SWAPTYPE_IN, premium.SwapIn, premium.SwapOut), message.Amount) <= message.PremiumLimit
@@ -620,8 +636,11 @@ package swap
 //@ assigns s.activeSwaps[swapId]
 
 //@ func (*SwapService).RemoveActiveSwap
+//@ property C10 C16 C07
 //@ forall k0 string
 //@ requires s != nil
+// a swap leaves the active set (and frees its channel) only when it is over
+//@ requires @C10,C16,C07 only-finished: !has(s.activeSwaps, swapId) || s.activeSwaps[swapId].IsFinished() || s.activeSwaps[swapId].Current == ""
 //@ ensures !has(s.activeSwaps, swapId)
 //@ ensures k0 != swapId ==> (has(s.activeSwaps, k0) == old(has(s.activeSwaps, k0)) && s.activeSwaps[k0] == old(s.activeSwaps[k0]))
 
@@ -630,6 +649,9 @@ package swap
 //@ requires s != nil
 //@ ensures @C09 by-id: (result1 == nil) == has(s.activeSwaps, swapId)
 //@ ensures @C09 by-id-value: result1 == nil ==> result0 == s.activeSwaps[swapId]
+// representation invariant of the map: every entry is stored under its own id
+// (lockSwap's precondition keyed-by-own-id at every insertion; ids are immutable)
+//@ ensures @trusted keyed: result1 == nil ==> result0.SwapId.String() == swapId
 //@ ensures result1 != nil ==> result0 == nil
 //@ assigns nothing
 
@@ -815,3 +837,30 @@ package swap
 // (the payment window and the "too close to csv" cut-off are measured from it)
 //@ stepinv getSwapOutSenderStates Started @C05,C16 start-frozen: (swap.GetChain() == btc_chain && old(swap.StartingBlockHeight) != 0) ==> swap.StartingBlockHeight == old(swap.StartingBlockHeight)
 //@ stepinv getSwapInReceiverStates Started @C05,C16 start-frozen: (swap.GetChain() == btc_chain && old(swap.StartingBlockHeight) != 0) ==> swap.StartingBlockHeight == old(swap.StartingBlockHeight)
+
+// ---------------------------------------------------------------------------
+// recovery of one persisted swap (the function literal in RecoverSwaps): it is
+// locked in under its own id before it is recovered, and leaves the active set
+// only when it is over (C07 C10)
+// ---------------------------------------------------------------------------
+//@ ghost recovered bool
+//@ func (*SwapService).RecoverSwaps$1
+//@ property C07 C10 C16
+//@ requires swap != nil && swap.Data != nil && s != nil && s.activeSwaps != nil && s.swapServices != nil && !ghost.dirty && !ghost.recovered && ghost.msgPeer == ""
+
+//@ func swapInSenderFromStore
+//@ trusted
+//@ ensures result == smData
+//@ assigns smData.swapServices, smData.States
+//@ func swapInReceiverFromStore
+//@ trusted
+//@ ensures result == smData
+//@ assigns smData.swapServices, smData.States
+//@ func swapOutSenderFromStore
+//@ trusted
+//@ ensures result == smData
+//@ assigns smData.swapServices, smData.States
+//@ func swapOutReceiverFromStore
+//@ trusted
+//@ ensures result == smData
+//@ assigns smData.swapServices, smData.States
